@@ -3,6 +3,7 @@
 package cache
 
 import (
+	"bytes"
 	"compress/gzip"
 	"crypto/sha256"
 	"encoding/gob"
@@ -234,7 +235,17 @@ func (bc *BuildCache) deserialize(c Cacheable, srcModTime time.Time, r io.Reader
 		}
 	}()
 
-	gd := gob.NewDecoder(zr)
+	// Decompress the whole entry before decoding any of it. gzip verifies the
+	// checksum and the length only once the stream has been read to EOF (Close
+	// does not check them), and the gob decoder stops reading right after the
+	// last value. Without this a damaged entry would be decoded, and the
+	// garbage handed to c.Read, before (or without) any integrity check.
+	data, err := io.ReadAll(zr)
+	if err != nil {
+		return buildTime, false, err
+	}
+
+	gd := gob.NewDecoder(bytes.NewReader(data))
 	if err := gd.Decode(&buildTime); err != nil {
 		return buildTime, false, err
 	}
